@@ -164,6 +164,8 @@ pub fn child_main(tag: &str, args: &[String]) {
     let mut items = vec![];
     let mut special = vec![];
     let mut all = false;
+    let mut single = false;
+    let mut suffix = String::new();
     let mut only: Vec<String> = vec![];
     let mut i = 0;
     while i < args.len() {
@@ -177,6 +179,11 @@ pub fn child_main(tag: &str, args: &[String]) {
                 special = parse_special(&args[i]);
             }
             "--all-kernels" => all = true,
+            "--single-thread" => single = true,
+            "--tag-suffix" => {
+                i += 1;
+                suffix = args[i].clone();
+            }
             "--only-kernels" => {
                 i += 1;
                 only = args[i].split(',').map(|x| x.to_string()).collect();
@@ -186,7 +193,9 @@ pub fn child_main(tag: &str, args: &[String]) {
         i += 1;
     }
     // items are independent: spread over threads
-    let n = std::thread::available_parallelism().map(|n| n.get()).unwrap_or(4);
+    let n = if single { 1 } else { std::thread::available_parallelism().map(|n| n.get()).unwrap_or(4) };
+    let tag_owned = format!("{}{}", tag, suffix);
+    let tag: &str = &tag_owned;
     // the forced-kernel switch is process-global: parallelise over items inside one kernel at a time
     let chunks: Vec<Vec<Item>> = {
         let mut c: Vec<Vec<Item>> = (0..n).map(|_| vec![]).collect();
